@@ -359,11 +359,13 @@ class Run:
             cov["exhaustive"] = bool(extra.get("exhaustive_space_complete", False))
         ev = dict(property_id=prop, tier=self.tier, seed=self.seed, level=spec["level"], coverage=cov,
                   assumptions=spec.get("assumptions", []), wall_s=round(wall, 2), violations=len(unmatched))
-        os.makedirs(os.path.join(VERIF, "evidence"), exist_ok=True)
-        tmp = os.path.join(VERIF, "evidence", ".%s.%d.tmp" % (prop, os.getpid()))
+        # VERIF_EVIDENCE_DIR redirects the evidence (used when a check is pointed at a scratch worktree with VERIF_REPO)
+        evdir = os.environ.get("VERIF_EVIDENCE_DIR") or os.path.join(VERIF, "evidence")
+        os.makedirs(evdir, exist_ok=True)
+        tmp = os.path.join(evdir, ".%s.%d.tmp" % (prop, os.getpid()))
         with open(tmp, "w") as f:
             json.dump(ev, f, indent=1, default=str)
-        os.replace(tmp, os.path.join(VERIF, "evidence", prop + ".json"))
+        os.replace(tmp, os.path.join(evdir, prop + ".json"))
         for ln in lines:
             print(ln)
         for ln in incomplete:
